@@ -32,6 +32,7 @@ type Block struct {
 	Votes   []Vote
 	Txs     []Tx
 	Restart bool // implementation only: restart the node before this block
+	Absent  []int // script mode only: keys to mark absent; votes are then filled in from the tracked sets
 }
 
 type History struct {
@@ -164,6 +165,7 @@ func ReadHistories(rd io.Reader) ([]History, error) {
 	var hs []History
 	var cur *History
 	restart := false
+	var pendingAbsent []int
 	for {
 		f, err := r.next()
 		if err == io.EOF {
@@ -184,9 +186,14 @@ func ReadHistories(rd io.Reader) ([]History, error) {
 			}
 		case "RESTART":
 			restart = true
+		case "ABSENT":
+			for _, a := range f[1:] {
+				pendingAbsent = append(pendingAbsent, atoi(a))
+			}
 		case "BLOCK":
-			b := Block{DtNs: atoi64(f[1]), Restart: restart}
+			b := Block{DtNs: atoi64(f[1]), Restart: restart, Absent: pendingAbsent}
 			restart = false
+			pendingAbsent = nil
 			nv, nt := atoi(f[2]), atoi(f[3])
 			for i := 0; i < nv; i++ {
 				v, err := r.next()
